@@ -4,6 +4,7 @@ E = "acnportal.acnsim.models.ev."
 S = "acnportal.acnsim.models.evse."
 SIM = "acnportal.acnsim.simulator.Simulator."
 NET = "acnportal.acnsim.network.charging_network.ChargingNetwork."
+AE = "acnportal.acnsim.events.acndata_events."
 EVT = "acnportal.acnsim.events.event."
 EQ = "acnportal.acnsim.events.event_queue.EventQueue."
 
@@ -23,7 +24,7 @@ BATTERY_FNS = [B + "Battery.__init__", B + "Battery.charge", B + "Battery.reset"
                B + "Linear2StageBattery._charge", B + "Linear2StageBattery._charge_stepwise"]
 SET_PILOT = [S + "BaseEVSE.set_pilot@EVSE", S + "BaseEVSE.set_pilot@DeadbandEVSE", S + "BaseEVSE.set_pilot@FiniteRatesEVSE"]
 
-SHARDS = {SIM + "run": 16, SIM + "_process_event": 4, EQ + "get_current_events": 8, EQ + "add_events": 3, EQ + "__init__": 3, B + "Linear2StageBattery._charge": 6, B + "Linear2StageBattery._charge_stepwise": 2}
+SHARDS = {B + "batt_cap_fn": 8, AE + "_convert_to_ev": 4, SIM + "run": 16, SIM + "_process_event": 4, EQ + "get_current_events": 8, EQ + "add_events": 3, EQ + "__init__": 3, B + "Linear2StageBattery._charge": 6, B + "Linear2StageBattery._charge_stepwise": 2}
 
 EVSE_FNS = [S + x for x in (
     "BaseEVSE.__init__", "EVSE.__init__", "DeadbandEVSE.__init__", "FiniteRatesEVSE.__init__",
@@ -247,15 +248,22 @@ PLAN = {
     ),
     "C15": dict(
         level="other",
+        functions=[AE + "_datetime_to_timestamp", AE + "_convert_to_ev", B + "batt_cap_fn.<locals>._get_init_cap", B + "batt_cap_fn"],
         bounded=[dict(module="rt.fnmon", fn="events_monitor", label="session documents, sample matrices and the capacity fit against the property's formulas")],
-        text="BOUNDED so far: run-time contracts on the real converters - _datetime_to_timestamp = floor(unix time / (60 x period)); _convert_to_ev: "
-             "arrival / departure = period index of connection / disconnection minus the period index of the start, stay capped at max_len, requested "
-             "energy = delivered energy (capped at max power x stay with force_feasible), ids copied, battery free capacity covers the request "
-             "(default and fitted two-stage batteries); get_evs / generate_events through a stubbed data client keep order and use one offset; "
-             "StochasticEvents._convert_ev_matrix per row; batt_cap_fn: charging at 32 A for the whole stay delivers exactly the request.",
-        note="no obligation is proved for C15 yet; datetime.timestamp() / pytz are trusted; bounded by the seeded input space written in the evidence",
-        explanation="bounded run-time contract monitor only (rt.fnmon.events_monitor)",
-        technique="run-time contract monitor on the real functions (bounded stand-in); deductive obligations pending",
+        text="PROVED (all documents, starts, periods, max_len, force_feasible; no bound): _datetime_to_timestamp returns floor(unix time / (60 x period)) "
+             "(and the ceiling with round_up); _convert_to_ev with the default battery: arrival / departure = period index of connection / "
+             "disconnection minus the offset, order preserving, stay capped at max_len, requested energy = delivered energy capped (force_feasible) at "
+             "max power x stay x period/60, ids copied, battery capacity = request with empty initial charge (free capacity covers the request); "
+             "batt_cap_fn on its closed-form branch (start at or beyond the transition SoC): the capacity is a listed size >= the request and "
+             "F(s0, stay) - s0 = request / capacity, i.e. charging at 32 A for the whole stay delivers exactly the request, initial charge in kWh "
+             "within the free capacity. BOUNDED: the bisection branch of the fit, custom capacity functions / battery classes, get_evs / "
+             "generate_events through a stubbed client, StochasticEvents._convert_ev_matrix (numpy rows), time zones.",
+        note="datetime.timestamp() is a ghost real (A-LIB); exp uninterpreted with instantiated axioms; binsearch (higher-order, recursive) is an "
+             "assumed frame-only contract, so the search branch of the fit is not proved; zero-length stays are excluded by precondition (the "
+             "Battery constructor would be handed capacity 0)",
+        explanation="proved: timestamp conversion, document conversion (default battery), closed-form branch of the capacity fit; bounded: the rest (rt.fnmon.events_monitor)",
+        technique="contract-based deductive verification (pyvc/z3) of the scalar converters and the closed-form fit + run-time contract monitor (bounded) for the remaining paths",
+        trusted=[EXP_AXIOMS, "datetime.timestamp() returns the ghost real theta of the datetime object; pytz conversions are not modelled"],
     ),
     "C17": dict(
         level="other",
